@@ -4,11 +4,11 @@
 package main
 
 import (
-	"strconv"
 	"encoding/binary"
 	"encoding/hex"
 	"fmt"
 	"math/big"
+	"strconv"
 
 	"github.com/polynetwork/poly/common"
 	"github.com/polynetwork/poly/core/store/leveldbstore"
@@ -194,8 +194,12 @@ var bindings = map[string]binding{
 		}
 		return relayer_manager.VerifC17PutRelayerRemove(n, &relayer_manager.RelayerListParam{})
 	}},
-	pRM + "APPLY_ID":  {[5]int{}, func(n *native.NativeService, a args) error { return relayer_manager.VerifC17PutApplyID(n, uint64(len(a.tag))) }},
-	pRM + "REMOVE_ID": {[5]int{}, func(n *native.NativeService, a args) error { return relayer_manager.VerifC17PutRemoveID(n, uint64(len(a.tag))) }},
+	pRM + "APPLY_ID": {[5]int{}, func(n *native.NativeService, a args) error {
+		return relayer_manager.VerifC17PutApplyID(n, uint64(len(a.tag)))
+	}},
+	pRM + "REMOVE_ID": {[5]int{}, func(n *native.NativeService, a args) error {
+		return relayer_manager.VerifC17PutRemoveID(n, uint64(len(a.tag)))
+	}},
 
 	pSV + "STATE_VALIDATOR": {[5]int{}, func(n *native.NativeService, a args) error {
 		return neo3_state_manager.VerifC17PutStateValidators(n, []string{polyenv.Key(len(a.tag)).PubHex})
